@@ -21,6 +21,7 @@ CONSTANTS Configs,       \* set of configuration records
           AllowSelfStop, \* CMA-ES internal stop explored?
           EmitScripts,   \* print one scenario script per terminal state?
           AllowManual,   \* caller-driven stepping: run_step() also when the global condition holds / after run() returned
+          AllowVariants, \* protocol variants inside a deme's metaepoch that no property excludes (LscFirst, SelfStopSilently)
           ExactOffers    \* scenario export: parents offer no more than the filters let through (the real run can
                          \* then follow the script literally; cutting is covered by the corpus and Sprout.tla)
 
@@ -121,6 +122,29 @@ Sprout ==
                /\ Note([a |-> "round", offers |-> [i \in DOMAIN Parents(st) |-> <<Parents(st)[i], O[Parents(st)[i]]>>],
                         kept |-> R])
 
+\* Protocol variants that no listed property excludes (met in behaviour-preserving refactorings of the library; the trace
+\* specification accepts them): explored with AllowVariants to show that every clause holds for them as well.
+\*  - after its last generation the deme asks its local condition first and the global one only if it would go on;
+LscFirst ==
+    /\ AllowVariants
+    /\ st.cur # NoDeme /\ EnGenGsc(st, st.cur) /\ st.gen >= GensOf(st, st.cur)
+    /\ LET d == st.cur
+           c == [Commit(st, d) EXCEPT !.await = "lsc"] IN
+       \E vl \in LscChoices(c, d) :
+          IF vl THEN /\ st' = DoLsc(c, d, TRUE, FALSE)
+                     /\ Note([a |-> "lsc_first", d |-> d, v |-> TRUE, g |-> FALSE])
+          ELSE \E v \in GscChoices(c), sf \in SelfChoices(c, d) :
+                 /\ st' = IF v THEN Norm([DoLsc(c, d, FALSE, FALSE) EXCEPT !.D[d].active = FALSE, !.D[d].why = "gsc",
+                                                 !.gscSeen = TRUE, !.gscAt = IF @ = -1 THEN st.steps ELSE @])
+                          ELSE DoLsc(c, d, FALSE, sf)
+                 /\ Note([a |-> "lsc_first", d |-> d, v |-> FALSE, g |-> v])
+\*  - a CMA-ES deme whose engine has terminated itself after an iteration asks nobody.
+SelfStopSilently ==
+    /\ AllowVariants /\ AllowSelfStop
+    /\ st.cur # NoDeme /\ EnGenGsc(st, st.cur) /\ Eng(st, st.cur) = "CMA"
+    /\ st' = DoLsc([Commit(st, st.cur) EXCEPT !.await = "lsc"], st.cur, FALSE, TRUE)
+    /\ UNCHANGED script
+
 \* the caller steps the tree itself (DemeTree.run_step is public): a step begins whatever the global condition says
 ManualStep ==
     /\ AllowManual
@@ -128,7 +152,7 @@ ManualStep ==
     /\ st' = DoLoopCheck([st EXCEPT !.pc = "loop"], FALSE)
     /\ Note([a |-> "manual_step"])
 
-Next == ManualStep \/ ChildInit \/ LoopCheck \/ Begin \/ Iter \/ GenGsc \/ Lsc \/ LocalRun \/ PostGsc \/ Sprout
+Next == ManualStep \/ LscFirst \/ SelfStopSilently \/ ChildInit \/ LoopCheck \/ Begin \/ Iter \/ GenGsc \/ Lsc \/ LocalRun \/ PostGsc \/ Sprout
 
 Spec == Init /\ [][Next]_vars
 
